@@ -71,12 +71,13 @@ def c01(ctx):
     if not ks or not aks:
         from .model import AnalysisError
         raise AnalysisError("linear query/add kernels not found through CountMinLinear.query/add")
+    own_all = RA.class_kernels(F, lin)          # C01 is about the linear sketch: its own kernels only
     RA.rule_qmin(ctx, ks)
     RA.rule_cons(ctx, aks)
-    RA.rule_newcount(ctx)
+    RA.rule_newcount(ctx, only=own_all)
     RA.rule_cap(ctx, lin)
-    RA.rule_range(ctx, {"cms"})
-    RA.rule_mono(ctx, {"cms"})
+    RA.rule_range(ctx, {"cms"}, only=own_all)
+    RA.rule_mono(ctx, {"cms"}, only=own_all)
     RA.rule_msum(ctx)
     mk = RA.merge_kernels(F, lin)
     RA.rule_cover(ctx, mk)
@@ -89,6 +90,7 @@ def c01(ctx):
     RT.rule_window(ctx, lin)
     RT.rule_deleg(ctx, lin)
     RT.rule_persist(ctx, lin)
+    RT.rule_layout(ctx, lin)
     ctx.floor("qmin", 5)
     ctx.floor("cons", 3)
     ctx.floor("msum", 3)
@@ -106,6 +108,7 @@ def c01(ctx):
 def c05(ctx):
     F = facts_of(ctx)
     RA.rule_bind(ctx, COUNTMIN)
+    RA.rule_attr_type(ctx, COUNTMIN)
     RA.rule_ceil(ctx)
     RA.rule_qmin(ctx)
     RA.rule_cons(ctx)
@@ -118,6 +121,8 @@ def c05(ctx):
     RT.rule_observers(ctx, COUNTMIN)
     RT.rule_value_fwd(ctx, COUNTMIN)
     RT.rule_window(ctx, COUNTMIN)
+    RT.rule_layout(ctx, COUNTMIN)       # "at most one counter per row changes, n_added grows by v": the table and the bookkeeping counters
+    #                                     of a shared-memory sketch must be disjoint segments of its block
     ctx.floor("no-skip", 6)
     ctx.floor("qmin", 15)
     ctx.floor("cons", 9)
@@ -229,7 +234,7 @@ def c13(ctx):
     RA.rule_nadd_once(ctx, [ks["add"]])
     RA.rule_sumcounters(ctx, [ks["merge"]])
     RT.rule_wrapper_once(ctx, hh)
-    RT.rule_state_owner(ctx, hh)
+    RT.rule_state_owner(ctx, hh, methods=("query", "generate_candidate_set", "add", "add_ngram", "merge", "__getitem__"))
     RT.rule_observers(ctx, hh)
     ctx.floor("cachekey", 6)
     ctx.floor("mutators", 3)
@@ -252,7 +257,7 @@ from . import rules_tables as RT
 def c15(ctx):
     RT.rule_mergeguard(ctx)
     RT.rule_wrapper_once(ctx, SKETCH_CLASSES, ("merge",))
-    RT.rule_state_owner(ctx)
+    RT.rule_state_owner(ctx, methods=("merge",))        # C15 is about merge()
     RA.rule_attr_type(ctx)
     ctx.floor("guard-first", 20)
     ctx.floor("guard-set", 18 + 5)
@@ -276,7 +281,7 @@ def c10(ctx):
     RT.rule_reload_valid(ctx)
     RT.rule_args_private(ctx)
     RT.rule_observers(ctx)
-    RT.rule_state_owner(ctx)
+    RT.rule_state_owner(ctx, methods=("save", "load", "__init__", "attach_existing_shm"))      # C10 is about save/load
     RA.rule_ceil(ctx)
     ctx.floor("persist-table", 30)
     ctx.floor("ctor-args", 20)
@@ -335,10 +340,11 @@ def c16(ctx):
       "Not decided: the algebraic composition 'bulk rule == v unit rules' for linear/heavy-hitter cells (hand argument from newcount/bm-table).")
 def c12(ctx):
     RA.rule_bind(ctx)
+    RA.rule_attr_type(ctx)
     RT.rule_deleg(ctx)
     RT.rule_window(ctx)
     RT.rule_value_fwd(ctx)
-    RT.rule_wrapper_once(ctx)
+    RT.rule_wrapper_once(ctx, methods=("add", "add_ngram"))      # C12 is about the adding entry points
     # add(key, v) == v unit adds, for log sketches under identical draws: the bulk step is literally v unit steps, each
     # drawing like a unit add, with the draw pointer threaded linearly; linear/HH bulk rules compose (hand argument)
     RA.rule_logstep(ctx)
@@ -409,7 +415,7 @@ def c17(ctx):
     RL.rule_tables(ctx)
     # query() is the kernel's value of the CURRENT registers on every path (no cached answer)
     RT.rule_wrapper_once(ctx, hll, ("query",))
-    RT.rule_state_owner(ctx, hll)
+    RT.rule_state_owner(ctx, hll, methods=("query",))    # C17 is about query()
     ctx.floor("wrapper-once", 3)
     ctx.floor("qtree", 6)
     ctx.floor("forms", 7)
@@ -449,9 +455,12 @@ def c06(ctx):
     RA.rule_logstep(ctx)
     # "on every history the estimate is at least min(true, num_reserved+1)": the add raises every cell of the key to the
     # stepped counter (cons, newcount) and steps below num_reserved are deterministic (logstep)
-    RA.rule_cons(ctx, [k for k in RA.add_kernels(facts_of(ctx)) if "log" in k.name])
-    RA.rule_newcount(ctx)
+    F = facts_of(ctx)
+    logk = RA.class_kernels(F, COUNTMIN[1:])        # C06 is about the log counters: kernels of the log classes' own methods
+    RA.rule_cons(ctx, [k for k in RA.add_kernels(F) if k.key in logk])
+    RA.rule_newcount(ctx, only=logk)
     RA.rule_bind(ctx, COUNTMIN[1:])
+    RA.rule_attr_type(ctx, COUNTMIN[1:])        # num_reserved / base / ceiling reach every log kernel at full width
     ctx.floor("randtoken", 10)
     ctx.floor("batchconst", 7)
     ctx.floor("expo", 5)
@@ -472,14 +481,15 @@ def c09(ctx):
     mk = RA.merge_kernels(F, COUNTMIN)
     RA.rule_other_ro(ctx, mk)
     RA.rule_msum(ctx)
-    RA.rule_range(ctx, {"cms"})
-    RA.rule_mono(ctx, {"cms"})
+    mkeys = {k.key for k in mk} | {c.callee.key for k in mk for c in F.calls_from(k) if c.callee.is_kernel}
+    RA.rule_range(ctx, {"cms"}, only=mkeys)        # C09 is about merging: the merge kernels only
+    RA.rule_mono(ctx, {"cms"}, only=mkeys)
     RA.rule_cover(ctx, mk)
     RA.rule_sumcounters(ctx, mk)
     RM.rule_logmerge_shape(ctx)
     RT.rule_mergeguard(ctx, COUNTMIN)
     RT.rule_wrapper_once(ctx, COUNTMIN, ("merge",))
-    RT.rule_state_owner(ctx, COUNTMIN)
+    RT.rule_state_owner(ctx, COUNTMIN, methods=("merge",))
     RT.rule_observers(ctx, COUNTMIN)
     ctx.floor("other-ro", 3)
     ctx.floor("msum", 3)
@@ -565,8 +575,6 @@ def c08(ctx):
 def c19(ctx):
     RP.rule_cb_guard(ctx)
     RP.rule_dead(ctx)
-    RP.rule_once(ctx)
-    RP.rule_nrecs(ctx)
     ctx.floor("cb-guard", 5)
     ctx.floor("dead-detect", 3)
     ctx.floor("dead-cleanup", 3)
